@@ -98,6 +98,9 @@ func evaluate(o *hx.Opts, sc *Scenario, r *hx.Rand, res *hx.Result) *scenarioRes
 		for k, d := range ex.Refix {
 			res.Fail("remarshal:"+generalise(d), input(p), fmt.Sprintf("before call %d: marshal -> ReadSession -> marshal differs %s", ex.RefixAt[k], d))
 		}
+		for k, d := range ex.CtxDiff {
+			res.Fail("context:"+generalise(d), input(p), fmt.Sprintf("before call %d: CurrentContext() of the kept-alive and of the re-read session differ %s", ex.CtxAt[k], d))
+		}
 		for _, e := range ex.ReadErrs {
 			res.Fail("reread-fails:"+readErrClass(e), input(p), e)
 		}
